@@ -27,7 +27,7 @@ NbVectors == {[Norm(x) EXCEPT !.da = b] : x \in Dev(NbK, Centres), b \in BOOLEAN
 \* every dimension drawn independently and uniformly (TLC's RandomElement, reproducible under -seed), then normalised
 Sampled == {Norm([d \in Fields |-> IF d = "da" THEN RandomElement(BOOLEAN) ELSE RandomElement(Dom[d])]) : i \in 1..SampleN}
 
-MCInitVectors == {Ext(b) : b \in BaseVectors} \cup NbVectors \cup Sampled
+MCInitVectors == BaseFull \cup NbVectors \cup Sampled
 \* scenario vectors only (development, replay of a family)
 MCInitScenario == NbVectors \cup Sampled
 
@@ -39,6 +39,6 @@ ASSUME PrintT(<<"PAYLOADS", ToJson(Payloads)>>)
 ASSUME PrintT(<<"DIMS", ToJson([dom |-> Dom, centre |-> Centre])>>)
 
 \* prediction from the as-built transcription (always TRUE: a report, one ABBAD line per panicking terminal state)
-AsBuiltReport == AB => (P_NoPanic(v, ModelObs) \/ PrintT(<<"ABBAD", ToJson([v |-> v, stage |-> out.stage])>>))
+AsBuiltReport == AB => ((P_NoPanic(v, ModelObs) /\ P_NoStall(v, ModelObs)) \/ PrintT(<<"ABBAD", ToJson([v |-> v, stage |-> out.stage])>>))
 AsBuiltHolds == AB_NoPanic
 =============================================================================
